@@ -30,8 +30,21 @@ struct Acc {
     violating: u64,
 }
 
-/// Observable used for lockstep: printed output so far + scalar variables.
-fn model_obs(m: &Machine) -> (String, Vec<(String, VerifValue)>) {
+type Obs = (String, Vec<(String, VerifValue)>, Option<u64>);
+
+/// Observable used for lockstep: printed output so far + scalar variables + current line.
+fn model_obs(m: &Machine) -> Obs {
+    // the line execution stands on (end-of-line positions are normalised like the subject does)
+    let mut probe = m.clone();
+    let line = match probe.peek_line() {
+        Some(l) => Some(l),
+        None => None,
+    };
+    let (o, v) = model_obs_inner(m);
+    (o, v, line)
+}
+
+fn model_obs_inner(m: &Machine) -> (String, Vec<(String, VerifValue)>) {
     let mut v: Vec<(String, VerifValue)> = m
         .vars
         .iter()
@@ -69,7 +82,7 @@ fn instrumented(lines: &[String], replies: &[String], model: Option<&ProgramAst>
     acc.programs += 1;
     let mut hist: Vec<Ev> = lines.iter().map(|l| Ev::Line(l.clone())).collect();
     // model states: obs after j steps
-    let mut mobs: Vec<(String, Vec<(String, VerifValue)>)> = vec![];
+    let mut mobs: Vec<Obs> = vec![];
     if let Some(p) = model {
         let mut m = Machine::new(p.clone(), 1);
         mobs.push(model_obs(&m));
@@ -133,7 +146,7 @@ fn instrumented(lines: &[String], replies: &[String], model: Option<&ProgramAst>
         }
         if problem.is_none() && model.is_some() && is_eval && matches!(r, CallResult::Ok) {
             let snap = s.it.verif_snapshot();
-            let obs = (out_so_far.clone(), snap.variables.clone());
+            let obs: Obs = (out_so_far.clone(), snap.variables.clone(), if snap.state == "Idle" { None } else { snap.location_line });
             let mut next = HashSet::new();
             for &j in &possible {
                 for cand in [j, j + 1] {
@@ -148,7 +161,7 @@ fn instrumented(lines: &[String], replies: &[String], model: Option<&ProgramAst>
                 let j = possible.iter().max().copied().unwrap_or(0);
                 problem = Some((
                     "call is not a stutter or a single reference step".into(),
-                    format!("after call {} ({:?}) the subject shows output {:?} vars {:?}; the reference after {} steps shows {:?}, after {} steps {:?}", turn, ev, obs.0, obs.1, j, mobs.get(j), j + 1, mobs.get(j + 1)),
+                    format!("after call {} ({:?}) the subject shows output {:?} vars {:?} line {:?}; the reference after {} steps shows {:?}, after {} steps {:?}", turn, ev, obs.0, obs.1, obs.2, j, mobs.get(j), j + 1, mobs.get(j + 1)),
                 ));
             } else {
                 possible = next;
@@ -182,6 +195,8 @@ fn nonterminating() -> Vec<(&'static str, Vec<String>)> {
         ("IF THEN self", vec!["10 IF 1 THEN 10".into()]),
         ("FOR re-entered by GOTO", vec!["10 FOR I=1 TO 9".into(), "20 GOTO 10".into()]),
         ("GOSUB ping-pong", vec!["10 GOSUB 100: GOTO 10".into(), "100 RETURN".into()]),
+        ("two lines jumping to each other", vec!["10 GOTO 20".into(), "20 GOTO 10".into()]),
+        ("three-line jump cycle entered from outside", vec!["10 GOTO 30".into(), "20 GOTO 40".into(), "30 GOTO 20".into(), "40 GOTO 30".into()]),
     ];
     let long_line = format!("10 {}: GOTO 10", vec!["X=X+1"; 200].join(": "));
     v.push(("200-statement line", vec![long_line]));
@@ -228,6 +243,64 @@ pub fn run(thorough: bool) -> Report {
                 }
                 merge(&total, acc);
             });
+        }
+    }
+
+    // (2b) CONT after a host break is one call like any other: at most one statement
+    let mut cont_calls = 0u64;
+    {
+        let mut progs: Vec<(String, Vec<String>, Vec<String>)> = fixed_programs().into_iter().map(|p| (p.name.to_string(), p.lines.iter().map(|l| l.to_string()).collect(), p.replies.iter().map(|l| l.to_string()).collect())).collect();
+        for (n, l) in nonterminating() {
+            progs.push((n.to_string(), l, vec![]));
+        }
+        for (name, lines, replies) in progs {
+            let bad: Vec<Violation> = (1..=40usize)
+                .into_par_iter()
+                .filter_map(|k| {
+                    let mut s = Sess::new();
+                    s.it.enable_tracing = true;
+                    let mut hist = vec![];
+                    for l in &lines {
+                        let e = Ev::Line(l.clone());
+                        let _ = s.apply(&e);
+                        hist.push(e);
+                    }
+                    let mut rp = replies.iter();
+                    let mut ev = Ev::Line("RUN".into());
+                    for _ in 0..k {
+                        let r = s.apply(&ev);
+                        hist.push(ev.clone());
+                        if r != CallResult::Ok {
+                            return None;
+                        }
+                        ev = match s.state() {
+                            InterpreterState::Running => Ev::Cont,
+                            InterpreterState::AwaitingInput => Ev::Input(rp.next()?.clone()),
+                            _ => return None,
+                        };
+                    }
+                    let _ = s.apply(&Ev::Break);
+                    hist.push(Ev::Break);
+                    let _ = take_counters();
+                    s.recs.clear();
+                    let r = s.apply(&Ev::Line("CONT".into()));
+                    hist.push(Ev::Line("CONT".into()));
+                    let c = take_counters();
+                    let prints = s.recs.iter().filter(|r| matches!(r, Rec::Print(_))).count() as u64;
+                    if matches!(r, CallResult::Panic(_)) || c.statements > 1 + c.ifs || prints > 1 {
+                        return Some(Violation {
+                            signature: format!("CONT after a break executed more than one statement [{}]", name),
+                            detail: format!("CONT after a break at boundary {}: {:?}, {} statement entries, {} IF dispatches, {} print records", k, r, c.statements, c.ifs, prints),
+                            case: case_history(&hist, false, true),
+                        });
+                    }
+                    None
+                })
+                .collect();
+            cont_calls += 40;
+            for v in bad.into_iter().take(1) {
+                rep.add(v);
+            }
         }
     }
 
@@ -294,6 +367,7 @@ pub fn run(thorough: bool) -> Report {
         "programs_in_lockstep_with_reference": acc.lockstep_programs,
         "turns_instrumented": acc.turns,
         "handback_boundaries": handback,
+        "break_then_cont_boundaries": cont_calls,
         "max_statement_entries_in_one_call": acc.max_entries,
         "max_work_ratio": acc.max_ratio,
         "work_bound_k": WORK_K,
